@@ -198,7 +198,7 @@ RULE = {
             "string sweep and forced FormattedAs/Format schedules; Coq compares the stored bytes with Json.render byte for byte and parses them back. "
             "distinct_nontrivial = distinct cases whose payload is nested, unencodable, a non-empty string, or whose type needs escaping; table schedules with >1 op."),
     "C18": ("Process calls on the real cloudevents.FormatterFilter over the product payload kind x format x schema x source x signer x listed x predicate, "
-            "plus random payload data, the list of all fresh ids the run observed (distinctness) one FormatterFilter shared by 8 goroutines (duplicate ids / panics, counted by the harness), and histories of Process / Rotate calls on ONE FormatterFilter (all of length <= 3 over {listed, unlisted, Rotate A / B / failing / nil} x initial signer none / A / failing, plus random longer ones), every event judged under the signer in force; the stored document is compared with CloudEvents.process byte for byte, serialized is "
+            "plus random payload data, the list of all fresh ids the run observed (distinctness) one FormatterFilter shared by 8 goroutines (duplicate ids / panics, counted by the harness), 2 goroutines rotating among three signers while 6 Process listed / unlisted events on the same node under GOMAXPROCS default and 1 (unsigned listed events, signatures verifying under none of the installed signers, signed unlisted events: counted by the harness, the first offending event is the replay), and histories of Process / Rotate calls on ONE FormatterFilter (all of length <= 3 over {listed, unlisted, Rotate A / B / failing / nil} x initial signer none / A / failing, plus random longer ones), every event judged under the signer in force; the stored document is compared with CloudEvents.process byte for byte, serialized is "
             "base64url-decoded inside Coq and compared with the unsigned document and with the signer's recorded input. "
             "distinct_nontrivial = distinct cases with a valid configuration (the document is built)."),
 }
@@ -281,7 +281,7 @@ def replay(ctx, rec, path):
     open(corpus, "w").write(json.dumps(rec["case"]) + "\n")
     rc, out = V.run([binp, "-replay", path])
     print(out)
-    if (rec.get("case") or {}).get("gen") == "concurrent-ids":
+    if (rec.get("case") or {}).get("gen") in ("concurrent-ids", "concurrent-signing"):
         rc, out = V.run([binp, "-out", cdir, "-modes", "conc"])
     else:
         rc, out = V.run([binp, "-out", cdir, "-modes", "", "-corpus", corpus])
